@@ -60,7 +60,7 @@ CASE_TIMEOUT = 120
 
 def gen_cases(seed, tier):
     rng = np.random.default_rng([seed, 8])
-    n = 520 if tier == "quick" else 9000
+    n = 720 if tier == "quick" else 14000
     big = tier != "quick"
     cases = []
     for i in range(n):
@@ -142,7 +142,7 @@ def _judge(ctx, monitor, got, want, tol, scale, what, kind, **kw):
     ctx.count(monitor + "_compared")
     if bit:
         ctx.count(monitor + "_bitwise_equal")
-    allowed = max(tol * scale, (32 if tol == ctx.tol_blas else 8) * ctx.noise)
+    allowed = max(tol * scale, (64 if tol == ctx.tol_blas else 16) * ctx.noise)
     if d < float("inf") and allowed > 0:
         ctx.res["worst_ratio"] = max(ctx.res.get("worst_ratio", 0.0), d / allowed)
     if allowed > tol * scale:
